@@ -191,6 +191,9 @@ func (w *World) QueryBox(s *core.Source) orb.Bound {
 // Filter is a drawn, pure predicate on pointer ids.
 type Filter struct {
 	Mod, Rem int // accept when id%Mod != Rem (Mod 0: accept all)
+	// Reenter: when used by a query, the predicate itself searches the same tree
+	// (a nested read-only query while the outer one is in progress) before it answers
+	Reenter bool
 }
 
 func DrawFilter(s *core.Source) *Filter {
@@ -205,6 +208,7 @@ func DrawFilter(s *core.Source) *Filter {
 		f.Mod = 1 // reject everything (id%1 == 0 == Rem)
 		f.Rem = 0
 	}
+	f.Reenter = s.Chance(1, 10, "reenter")
 	return f
 }
 
@@ -227,9 +231,32 @@ func (f *Filter) Func() quadtree.FilterFunc {
 	}
 }
 
+// filter is the predicate handed to the tree for this query.
+func (q *Query) filter(tr *quadtree.Quadtree) quadtree.FilterFunc {
+	f := q.F.Func()
+	if q.F == nil || !q.F.Reenter {
+		return f
+	}
+	return func(p orb.Pointer) bool {
+		// nested searches on the same tree; their results are checked for plausibility only
+		if x, ok := p.(*Pt); ok && x != nil {
+			if got := tr.Find(x.P); got == nil {
+				panic("harness: nested Find returned nil on a tree that holds the pointer being filtered")
+			}
+			tr.KNearest(nil, x.P, 2)
+		}
+		return f(p)
+	}
+}
+
 func (f *Filter) String() string {
 	if f == nil {
 		return "nofilter"
+	}
+	if f.Reenter {
+		g := *f
+		g.Reenter = false
+		return g.String() + "+nested-queries"
 	}
 	if f.Mod == 0 {
 		return "filter(all)"
@@ -311,7 +338,12 @@ type Query struct {
 	K       int
 	MaxDist float64 // <0: not given
 	F       *Filter
-	BufCap  int // -1: nil buffer; Chain: the caller's previous result is handed back as the buffer
+	Limit   []float64 // the variadic maxDistance as the caller holds it: one slice, passed with "..." every time the query runs
+	// Win: the buffer is this window of a larger array the caller shares out among its queries
+	// (big[i*k:(i+1)*k]: length k, capacity to the end of the array). A k-nearest query fills at
+	// most its k slots; what lies behind them belongs to other queries.
+	Win    []orb.Pointer
+	BufCap int // -1: nil buffer; Chain: the caller's previous result is handed back as the buffer
 }
 
 // Chain is the BufCap of a query that reuses the previous result of the same
@@ -357,6 +389,7 @@ func (w *World) DrawQuery(s *core.Source, kind int) *Query {
 			if s.Chance(1, 12, "zero-limit") {
 				q.MaxDist = 0 // strictly within 0: nothing qualifies
 			}
+			q.Limit = []float64{q.MaxDist}
 		}
 		if kind == QKNearestMatching {
 			q.F = DrawFilter(s)
@@ -401,6 +434,12 @@ func (q *Query) String() string {
 var sentinel = &Pt{ID: -1}
 
 func (q *Query) buf(prev []orb.Pointer) []orb.Pointer {
+	if q.Win != nil {
+		for i := range q.Win {
+			q.Win[i] = sentinel
+		}
+		return q.Win
+	}
 	if q.BufCap == Chain {
 		return prev
 	}
@@ -421,6 +460,33 @@ type Result struct {
 	IsOne bool
 }
 
+// Carve hands the k-nearest queries among qs (k <= maxK) adjacent windows of one
+// array as their buffers and returns how many got one.
+func Carve(qs []*Query, maxK int) int {
+	total := 0
+	for _, q := range qs {
+		if (q.Kind == QKNearest || q.Kind == QKNearestMatching) && q.K <= maxK {
+			total += q.K
+		}
+	}
+	if total == 0 {
+		return 0
+	}
+	big := make([]orb.Pointer, total+4)
+	for i := range big {
+		big[i] = sentinel
+	}
+	off, n := 0, 0
+	for _, q := range qs {
+		if (q.Kind == QKNearest || q.Kind == QKNearestMatching) && q.K <= maxK {
+			q.Win = big[off : off+q.K]
+			off += q.K
+			n++
+		}
+	}
+	return n
+}
+
 // Exec runs the query against the tree (a chained query gets no buffer).
 func (q *Query) Exec(tr *quadtree.Quadtree) Result { return q.ExecBuf(tr, nil) }
 
@@ -439,21 +505,27 @@ func (q *Query) ExecBuf(tr *quadtree.Quadtree, prev []orb.Pointer) Result {
 	case QFind:
 		return Result{One: tr.Find(q.P), IsOne: true}
 	case QMatching:
-		return Result{One: tr.Matching(q.P, q.F.Func()), IsOne: true}
+		return Result{One: tr.Matching(q.P, q.filter(tr)), IsOne: true}
 	case QKNearest:
 		if q.MaxDist >= 0 {
-			return Result{Many: tr.KNearest(q.buf(prev), q.P, q.K, q.MaxDist)}
+			if q.Limit == nil {
+				q.Limit = []float64{q.MaxDist}
+			}
+			return Result{Many: tr.KNearest(q.buf(prev), q.P, q.K, q.Limit...)}
 		}
 		return Result{Many: tr.KNearest(q.buf(prev), q.P, q.K)}
 	case QKNearestMatching:
 		if q.MaxDist >= 0 {
-			return Result{Many: tr.KNearestMatching(q.buf(prev), q.P, q.K, q.F.Func(), q.MaxDist)}
+			if q.Limit == nil {
+				q.Limit = []float64{q.MaxDist}
+			}
+			return Result{Many: tr.KNearestMatching(q.buf(prev), q.P, q.K, q.filter(tr), q.Limit...)}
 		}
-		return Result{Many: tr.KNearestMatching(q.buf(prev), q.P, q.K, q.F.Func())}
+		return Result{Many: tr.KNearestMatching(q.buf(prev), q.P, q.K, q.filter(tr))}
 	case QInBound:
 		return Result{Many: tr.InBound(q.buf(prev), q.Box)}
 	default:
-		return Result{Many: tr.InBoundMatching(q.buf(prev), q.Box, q.F.Func())}
+		return Result{Many: tr.InBoundMatching(q.buf(prev), q.Box, q.filter(tr))}
 	}
 }
 
@@ -490,6 +562,9 @@ func (r Result) String() string {
 // It returns a non-empty oracle id and message on disagreement.
 func (m *Model) Check(q *Query, r Result) (oracle, msg string) {
 	name := QueryNames[q.Kind]
+	if q.Limit != nil && (len(q.Limit) != 1 || q.Limit[0] != q.MaxDist) {
+		return "argument-changed", fmt.Sprintf("%s changed the caller's maxDistance argument slice: it held [%g], now %v", name, q.MaxDist, q.Limit)
+	}
 	var cnt map[*Pt]int
 	count := func(x *Pt) int {
 		if cnt == nil {
